@@ -25,6 +25,9 @@ CLAIMED = {
  'C10': dict(
   text="For every enumerated layout (lines before, indentation, 1-4 comment lines, tag on any of them, text after the comment on its last line, per-line lead/key/trail shapes) and every value of the key and blank bytes, Z3 shows on the MIR of the block parser glue and of the five sync validators: a sort/unique/pattern violation's line and byte columns delimit exactly the first offending key in the assembled file; line-count and affects violations span exactly '<'..'>' of the start tag; the block's tag position and content byte range are those of the layout.",
   note="Trusted: interpreter, string models. Stubs: tree-sitter (the two Comment values of a /* */ layout; validated on sampled witnesses against the real binary), the winnow tag scanner (reference scanner), regex for ^a+$ only, serde_json::to_value. Not decided: Lua/AI ranges (async), regex-group keys, multi-byte text, other comment syntaxes."),
+ 'C06': dict(
+  text="For every enumerated configuration (direction spelled empty/asc/ASC/desc/Desc, lexicographic or numeric format) and per-line shape of up to N content lines, and every value of the key and blank bytes, Z3 shows on the MIR of KeepSortedValidator::validate and its helpers: a violation is reported iff some key is strictly out of order w.r.t. its predecessor (bytewise, or as integers under numeric; equal neighbours are in order), exactly one, designating the first such key; the verdict does not depend on the is_content_modified / tag-modified flags.",
+  note="Trusted: interpreter, string models incl. the integer fragment of f64 parsing/comparison. Stubs as in C10. Not decided: keep-sorted-pattern (regex) forms, decimal/exponent/inf/nan numerics, non-ASCII keys, more than 5 lines."),
 }
 
 NOT_APPLICABLE = {
@@ -34,7 +37,7 @@ NOT_APPLICABLE = {
 }
 PENDING = "harness not built yet (planned, DESIGN.md section 4)"
 
-FIX_COMMITS = ["7840229", "fe70c83", "d9a5bb3", "c089a2f", "882bf2f"]
+FIX_COMMITS = ["7840229", "fe70c83", "d9a5bb3", "c089a2f", "882bf2f", "408e5a1"]
 
 
 def main():
